@@ -53,6 +53,15 @@ fn iana() -> String {
     }).collect::<Vec<_>>().join(",")
 }
 
+/// `intshow <i128>`: `Int::try_from(v)` rendered with Display / through `Token::Int` / Debug-free: `<text> | <text>`
+fn intshow(w: &[&str]) -> String {
+    let v = match w.first().and_then(|x| x.parse::<i128>().ok()) { Some(v) => v, None => return "bad-op".into() };
+    match minicbor::data::Int::try_from(v) {
+        Ok(i) => format!("{} | {}", i, minicbor::data::Token::Int(i)),
+        Err(_) => "norep".into()
+    }
+}
+
 fn main() {
     watchdog::start();
     std::panic::set_hook(Box::new(|_| {}));
@@ -97,6 +106,7 @@ fn dispatch(w: &[&str]) -> String {
         "sink" => sinkop::run_raw(&w[1..]), "sinkenc" => sinkop::run_enc(&w[1..]), "sinkval" => sinkop::run_val(&w[1..]), "encseq" => sinkop::run_encseq(&w[1..]), "sinkiter" => sinkop::run_iter(&w[1..]),
         "display" => dispop::run(&w[1..]),
         "iana" => iana(),
+        "intshow" => intshow(&w[1..]),
         "cli" => dispop::run_cli(&w[1..]),
         "displayf" => dispop::run_f(&w[1..]),
         "displayat" => dispop::run_at(&w[1..]),
@@ -112,6 +122,7 @@ fn dispatch(w: &[&str]) -> String {
         "tencpath" => typed::run_encpath(&w[1..]),
         "tdec" => typed::run_dec(&w[1..]),
         "tretry" => typed::run_retry(&w[1..]),
+        "tsink" => typed::run_sink(&w[1..]),
         "tokenc" => tokop::run_enc(&w[1..]),
         "tokencs" => tokop::run_enc_split(&w[1..]),
         "tokdec" => tokop::run_dec(&w[1..]),
